@@ -80,6 +80,14 @@ func TestVerif(t *testing.T) {
 
 func e2eCase(t *testing.T, c *E2ECase) {
 	id := run.NewID()
+	onDeadlock = func(c *E2ECase, res *E2EResult) {
+		rc := c.clone()
+		rc.Decisions = res.Decisions
+		run.Case(id, "E deadlock", "E deadlock")
+		run.OracleFail(id, "deadlock", fmt.Sprintf("operations blocked for ever with no HTTP exchange pending after %d events", len(res.Events)), map[string]any{"kind": "E", "case": rc})
+		run.Finish()
+		os.Exit(0)
+	}
 	res := runE2E(t, c)
 	fs := checkE2E(c, res)
 	nops, nfail := 0, 0
